@@ -16,11 +16,10 @@
     fixpoint_terminates_iff_acyclic           the dependency walk finishes iff the graph is closed and acyclic
     delete_rename_guard                       a referenced tag is neither deleted nor renamed
     referenced_flag_mirror                    ListTags().Referenced ↔ some tag references it
-  NOT proved here (stated in DESIGN §5, checked only by the correspondence tie and the harness oracle):
-    mark_update_applies   (mark add/del of existing ids changes exactly those ids; the model functions are
-                           markAddApply / markDelApply, tied strictly through the match-set accessor)
-    graph_init for the start-up validation `loadTags` of a saved state (only the empty table is proved:
-                           `graph_init`); `loadTags` is modelled but neither tied nor verified.
+  Proved in Pk/Props/C11More.lean: `mark_add_applies` / `mark_del_applies` (exactly the ids change, the stored
+  definition text denotes the new set, referrers become pending, the mark's own pending set is put back),
+  the pending-aware invariant `MarkDefInv` for every call sequence, and the start-up validation
+  (`loadTags_graph`, `loadTags_rejects_only_bad`, `loadTags_roundtrip`).
 -/
 import Pk.Model.TagGraph
 import Pk.Proofs.TagGraph
